@@ -68,6 +68,8 @@ PINS["cross VJP reduces broadcast batch axes"] = ("C01", ["regress/C01/cross-axi
 PINS["solve VJP treats a 1-D right-hand side"] = ("C01", ["regress/C01/solve-stacked-matrices-vector-rhs.json"])
 PINS["split / array_split VJP for cut points"] = ("C01", ["regress/C01/split_cuts_not_tiling.json", "regress/C01/array_split_cuts_not_tiling.json"])
 PINS["tanh rules use (1 + tanh x)(1 - tanh x)"] = ("C07", ["regress/C07/tanh-saturated-forward-over-reverse.json"])
+PINS["maximum/minimum/fmax/fmin JVPs return a tangent of the output"] = ("C05", ["regress/C05/maximum-jvp-complex-partner.json"])
+PINS["power rule for the base replaces the exponent only at"] = ("C07", ["regress/C07/power-traced-exponent-zero.json"])
 PINS["rfft/irfft family VJPs resolve an entry -1"] = ("C01", ["regress/C01/rfftn-s-minus-one.json"])
 PINS["transform the cotangent with the resolved lengths"] = ("C01", ["regress/C01/rfft2-s-last-minus-one.json"])
 PINS["applies to floating-point inputs only"] = ("C15", ["regress/C15/int-stack-forward-tangent.json"])
